@@ -4,7 +4,9 @@ from .fam_cert import quorum
 
 EXTREME_VIEWS = [0, 1, 2, 255, 256, 65535, 2**31 - 1, 2**31, 2**32 - 1, 2**32, 2**32 + 1, 2**53, 2**63 - 1, 2**63, 2**64 - 1]
 EXTREME_TS = ["0.0", "1.0", "-1.0", "1700000000.123456789", "-5.999999999", "253402300799.999999999", "-62135596800.0",
-              "9223372036.854775807", "-9223372037.0", "4102444800.1", "1.999999999"]
+              "9223372036.854775807", "-9223372037.0", "4102444800.1", "1.999999999",
+              # outside what timestamppb calls valid (before year 1, after year 9999): still a time.Time the sender hashed
+              "253402300800.0", "1099511627776.000000005", "-62135596801.0", "-62135596800.000000001"]
 
 
 class WireFam(Family):
@@ -81,6 +83,12 @@ class WireFam(Family):
             L.append(f"si S{k} qc={rng.choice(qcs + ['-'])} tc={rng.choice(['T', 'T0', '-'])} agg={rng.choice(['A', '-'])}")
             L.append(f"rt si S{k}")
         L.append(f"rt prop {blocks[-1][0]} from={blocks[-1][1]} agg=A")
+        # an aggregate QC whose QC map is empty is still an aggregate QC (present, with view and signature)
+        L.append(f"agg AE sig={'mm' if len(use) >= 2 else 'm%d' % use[0]} view={tv} qcs=-")
+        L.append(f"rt agg AE at={R()}")
+        L.append(f"rt prop {blocks[-1][0]} from={blocks[-1][1]} agg=AE")
+        L.append("agg AN sig=nil view=0 qcs=-")
+        L.append(f"rt prop {blocks[0][0]} from={blocks[0][1]} agg=AN")
         return L
 
     def generate(self, tier, rng):
